@@ -71,6 +71,24 @@ func variantKey(r *hx.Rand, k string) string {
 	return strings.ToUpper(k) + " "
 }
 
+// extValue: an RFC 5987 ext-value (charset'language'percent-encoded) carrying v
+func extValue(r *hx.Rand, v string) string {
+	const hexd = "0123456789ABCDEF"
+	var sb strings.Builder
+	sb.WriteString(hx.Pick(r, "UTF-8''", "UTF-8''", "utf-8'en'", "UTF-8'de'"))
+	for i := 0; i < len(v); i++ {
+		c := v[i]
+		if (c >= 'a' && c <= 'z' || c >= 'A' && c <= 'Z' || c >= '0' && c <= '9') && r.Intn(4) != 0 {
+			sb.WriteByte(c)
+		} else {
+			sb.WriteByte('%')
+			sb.WriteByte(hexd[c>>4])
+			sb.WriteByte(hexd[c&15])
+		}
+	}
+	return sb.String()
+}
+
 func (g *variantGrammar) genEntry(r *hx.Rand) string {
 	items := g.base(r)
 	// one to three duplicated keys, each in two or three spellings with different values
@@ -101,11 +119,17 @@ func (g *variantGrammar) genEntry(r *hx.Rand) string {
 			keys = append(keys, k)
 		}
 		off := r.Intn(8)
+		if sp.vals != nil && r.Intn(4) == 0 {
+			// the RFC 5987 / RFC 7616 extended spelling of a parameter name: key*=UTF-8''percent-encoded
+			keys[len(keys)-1] = sp.key + "*"
+		}
 		for ci, k := range keys {
 			it := k
 			if sp.vals != nil {
 				v := sp.vals[(off+ci)%len(sp.vals)]
-				if r.Intn(6) == 0 && !strings.HasPrefix(v, "\"") {
+				if strings.HasSuffix(k, "*") {
+					v = extValue(r, strings.Trim(v, "\""))
+				} else if r.Intn(6) == 0 && !strings.HasPrefix(v, "\"") {
 					v = "\"" + v + "\""
 				}
 				it = k + "=" + v
